@@ -52,6 +52,11 @@ TEMPLATES = {
     "ns_untaken": "{% set ns = d %}{% if z == 5 %}{% set ns.x = 1 %}{% endif %}{% set ns.x = 2 %}{{ ns.x }}",
     # `|list` hands out a copy: appending to it changes neither the data, nor a global, nor a cached module's variable
     "list_copy": "{% set a = items|list %}{% set _ = a.append(9) %}{% set b = gl|list %}{% set _ = b.append(9) %}{% import 'lib' as l %}{% set c = l.ll|list %}{% set _ = c.append(9) %}{{ a }}{{ b }}{{ c }}{{ l.ll }}",
+    # the parent is chosen by the data of each render; super() must reach the parent chosen by THIS render
+    "base2": "F<{% block a %}fa{% endblock %}|{% block b %}fb{{ x }}{% endblock %}>",
+    "dyn": "{% extends lay %}{% block a %}d{{ x }}{{ super() }}{% endblock %}{% block b %}{{ super() }}{{ self.a() }}{% endblock %}",
+    # a generator passes through the engine's await helper, then a generator-based coroutine must still be awaited
+    "genpass": "{{ d|items|list }}{{ d|items is iterable }}{% for k, v in d|items %}{{ k }}{% endfor %}",
     "libg": "{% macro gm() %}[{{ tg }}]{% endmacro %}{% set gv = 'v' ~ tg %}",
     "impg1": "{% import 'libg' as l %}{{ l.gm() }}{{ l.gv }}{{ tg }}",
     "impg2": "{% from 'libg' import gm, gv %}{{ gm() }}{{ gv }}{{ tg }}",
@@ -59,7 +64,8 @@ TEMPLATES = {
 }
 POOL = ["imp", "fromctx", "ns", "loopstate", "cycler", "filters", "child", "macro", "setattr", "tojson_indent", "tojson",
         "policies", "impg1", "impg2", "set_attr_of_data", "setblock_attr_of_data", "set_ns_attr",
-        "ns_from_dict", "ae_block", "ae_block@raise", "ns_rebound", "ns_untaken", "list_copy"]
+        "ns_from_dict", "ae_block", "ae_block@raise", "ns_rebound", "ns_untaken", "list_copy", "dyn@base", "dyn@base2", "genpass"]
+VARIANTS = {"raise": {"z": 0}, "base": {"lay": "base"}, "base2": {"lay": "base2"}}
 # templates loaded with template-level globals (same names, different values)
 TEMPLATE_GLOBALS = {"impg1": {"tg": "one"}, "impg2": {"tg": "two"}}
 
@@ -112,6 +118,35 @@ def make_env(async_=False, memo=False, autoescape=False):
     return env
 
 
+def _snap(v, depth=0):
+    if isinstance(v, dict):
+        return ("dict", tuple(sorted((repr(k), _snap(x, depth + 1)) for k, x in v.items()))) if depth < 3 else "dict.."
+    if isinstance(v, (list, tuple)):
+        return (type(v).__name__, tuple(_snap(x, depth + 1) for x in v)) if depth < 3 else "seq.."
+    if isinstance(v, (set, frozenset)):
+        return ("set", tuple(sorted(str(_snap(x, depth + 1)) for x in v))) if depth < 3 else "set.."
+    if isinstance(v, (int, float, str, bytes, bool, type(None))):
+        return v
+    if isinstance(v, type):
+        return v.__qualname__
+    return type(v).__qualname__
+
+
+def module_state():
+    """every module-level dict / list / set of the jinja2 package (filter and test tables, default policies, operator
+    tables, fast-path type sets, ...): process-wide state that a render must leave alone"""
+    import sys
+
+    out = {}
+    for mn, m in sorted(sys.modules.items()):
+        if m is None or not (mn == "jinja2" or mn.startswith("jinja2.")):
+            continue
+        for k, v in vars(m).items():
+            if isinstance(v, (dict, list, set)) and not k.startswith("__"):
+                out[mn + "." + k] = _snap(v)
+    return out
+
+
 def snapshot(env, data, names):
     tg = {}
     for n in names:
@@ -129,14 +164,16 @@ def snapshot(env, data, names):
 
     eg["<policies>"] = copy.deepcopy(dict(env.policies))
     eg["<default-policies>"] = copy.deepcopy(dict(jinja2.defaults.DEFAULT_POLICIES))
+    eg["<module-state>"] = module_state()
     return copy.deepcopy(data), eg, tg
 
 
 def render(env, name, data, async_):
     if "@" in name:
-        # same template, data that makes it raise in the middle (inside its autoescape block)
-        name = name.split("@")[0]
-        data = dict(data, z=0)
+        # same template, other data: `raise` makes it raise in the middle (inside its autoescape block), the others
+        # choose the parent template at render time
+        name, variant = name.split("@")
+        data = dict(data, **VARIANTS[variant])
     try:
         t = env.get_template(name, globals=TEMPLATE_GLOBALS.get(name))
         if async_ is True:
